@@ -22,6 +22,7 @@ type SyncCase struct {
 	Mem    bool         `json:"mem,omitempty"`    // synthetic in-memory source instead of NewFS
 	Differ int          `json:"differ,omitempty"` // fsutil.DiffType
 	Notify bool         `json:"notify,omitempty"`
+	Unpriv bool         `json:"unpriv,omitempty"` // receiver (and whole transfer) runs as uid 1000
 }
 
 func (c SyncCase) String() string {
